@@ -220,6 +220,14 @@ class ExprMixin:
     def e_Constant(self, node, env):
         return node.value
 
+    def e_NamedExpr(self, node, env):
+        v = self.eval(node.value, env)
+        self.assign_target(node.target, v, env)
+        return v
+
+    def e_SetComp(self, node, env):
+        return PySet(self.run_comprehension(node, env))
+
     def e_Name(self, node, env):
         return self.lookup_name(env, node.id)
 
@@ -381,6 +389,8 @@ class ExprMixin:
         a = self.force_num(a)
         b = self.force_num(b)
         if op == "|":
+            if isinstance(a, dict) and isinstance(b, dict):
+                return {**a, **b}
             # type unions in isinstance(x, int | float)
             return ("union", a, b)
         if isinstance(a, TimeDelta) or isinstance(b, TimeDelta):
@@ -858,6 +868,8 @@ class ExprMixin:
                         return self.call_function(FuncV(meth), [obj], {})
                     if any(isinstance(d, ast.Name) and d.id == "classmethod" for d in meth.decorators):
                         return BoundV(ClassV(obj.cls), FuncV(meth))
+                    if any(isinstance(d, ast.Name) and d.id == "staticmethod" for d in meth.decorators):
+                        return FuncV(meth)
                     return BoundV(obj, FuncV(meth))
                 for c in self.tree.mro(obj.cls):
                     if attr in c.class_attrs and c.class_attrs[attr] is not None:
@@ -1018,6 +1030,21 @@ class ExprMixin:
             if ok:
                 out.append(self.eval(node.elt, sub))
         return out
+
+    def lazy_iterate(self, v):
+        """elements one at a time; for a generator expression each element is evaluated only when asked for"""
+        if isinstance(v, GenExp):
+            node, env = v.node, v.env
+            if len(node.generators) != 1:
+                raise Unsupported("nested comprehension")
+            g = node.generators[0]
+            for item in self.iterate(self.eval(g.iter, env)):
+                sub = Env(env.func, env.module, parent=env)
+                self.assign_target(g.target, item, sub)
+                if all(self.is_true(self.eval(c, sub)) for c in g.ifs):
+                    yield self.eval(node.elt, sub)
+            return
+        yield from self.iterate(v)
 
     def iterate(self, v):
         if isinstance(v, PySet):
